@@ -454,6 +454,11 @@ var (
 func (k Key) validate(op KeyOp) error {
 	switch k.Type {
 	case KeyTypeEC2:
+		// x and d are byte strings, y a byte string or the sign bit (RFC 9053
+		// Section 7.1.1): EC2 reads anything else as absent
+		if !k.paramIsBstr(KeyLabelEC2X, false) || !k.paramIsBstr(KeyLabelEC2Y, true) || !k.paramIsBstr(KeyLabelEC2D, false) {
+			return fmt.Errorf("%w: x, y or d of the wrong type", ErrInvalidKey)
+		}
 		crv, x, y, d := k.EC2()
 		switch op {
 		case KeyOpVerify:
@@ -485,6 +490,10 @@ func (k Key) validate(op KeyOp) error {
 			// see https://www.rfc-editor.org/rfc/rfc8152#section-13.1.1
 		}
 	case KeyTypeOKP:
+		// x and d are byte strings (RFC 9053 Section 7.2)
+		if !k.paramIsBstr(KeyLabelOKPX, false) || !k.paramIsBstr(KeyLabelOKPD, false) {
+			return fmt.Errorf("%w: x or d of the wrong type", ErrInvalidKey)
+		}
 		crv, x, d := k.OKP()
 		switch op {
 		case KeyOpVerify:
@@ -537,6 +546,22 @@ func (k Key) validate(op KeyOp) error {
 	}
 
 	return nil
+}
+
+// paramIsBstr reports whether the parameter is absent or a byte string
+// (or, with orBool, a CBOR boolean).
+func (k Key) paramIsBstr(label int64, orBool bool) bool {
+	v, ok := k.Params[label]
+	if !ok {
+		return true
+	}
+	switch v.(type) {
+	case []byte:
+		return true
+	case bool:
+		return orBool
+	}
+	return false
 }
 
 func (k Key) canOp(op KeyOp) bool {
